@@ -39,6 +39,11 @@ def converse_cases(tier):
     for A, B, C, D in itertools.product(pool, repeat=4):
         for row in SC.ja_converse(A, B, C, D):
             yield row
+    from mc.props.c06 import DEEP_JA
+    for B in [K.P(c) for c in DEEP_JA]:
+        for A, C, D in itertools.product(pool[:2], repeat=3):
+            for row in SC.ja_converse(A, B, C, D):
+                yield row
 
 
 _SRC = {}
